@@ -30,13 +30,17 @@ def outcomes(seed, n):
         outcomes._declared = True
     extra = ["Lone", "Semi", "SemiT", "Prod"]
     # free-standing units of base and derived dimensions (no definition connects them to anything)
-    for nm, dim in (("LoneT", measured.Time), ("LoneM", measured.Mass), ("Spd", measured.Speed), ("Frc", measured.Force), ("Prs", measured.Pressure), ("Ar", measured.Area)):
+    for nm, dim in (("LoneT", measured.Time), ("LoneM", measured.Mass), ("Spd", measured.Speed), ("Frc", measured.Force), ("Prs", measured.Pressure), ("Ar", measured.Area),
+                    ("Freq", measured.Frequency), ("Wav", measured.Length**-1), ("LT", measured.Length * measured.Time)):
         ns[nm] = mk(dim, tag + nm.lower())
     spell = {"L": ["Meter", "Lone", "Semi", "Foot"], "T": ["Second", "LoneT", "SemiT", "Hour"], "M": ["Kilogram", "LoneM", "Pound"],
              "V": ["Spd", "(Meter / Second)", "(Lone / LoneT)", "Knot", "(Semi / Second)"],
              "F": ["Frc", "Newton", "(Kilogram * Meter / Second**2)", "(LoneM * Lone / LoneT**2)", "PoundForce"],
              "P": ["Prs", "Pascal", "(Frc / Meter**2)", "(Newton / Lone**2)", "PSI"],
-             "A": ["Ar", "(Meter**2)", "(Lone * Meter)", "Acre", "(Semi**2)"], "E": ["Prod", "Joule", "(Frc * Lone)", "(Newton * Semi)"]}
+             "A": ["Ar", "(Meter**2)", "(Lone * Meter)", "Acre", "(Semi**2)"], "E": ["Prod", "Joule", "(Frc * Lone)", "(Newton * Semi)"],
+             # units of inverse and mixed dimensions: a unit of T**-1 meets a unit of time in a denominator
+             "Q": ["Freq", "Hertz", "(Second**-1)", "(LoneT**-1)", "(Hour**-1)"], "W": ["Wav", "(Meter**-1)", "(Lone**-1)"],
+             "X": ["LT", "(Meter * Second)", "(Lone * LoneT)"]}
 
     def respell():
         """two expressions of one dimension, factor by factor in different spellings, optionally times U/V with dim U = dim V"""
